@@ -32,6 +32,9 @@ pub struct ProverCfg {
     pub poseidon1: bool,
     /// register the width-16 *and* the KoalaBear width-32 Poseidon2 tables (mixed circuits)
     pub poseidon_both: bool,
+    /// register the recompose table before the Poseidon table (table order in the proof is the
+    /// registration order, not the lexicographic order of the op types)
+    pub npo_reversed: bool,
 }
 impl Default for ProverCfg {
     fn default() -> Self {
@@ -46,6 +49,7 @@ impl Default for ProverCfg {
             poseidon_w32: false,
             poseidon1: false,
             poseidon_both: false,
+            npo_reversed: false,
         }
     }
 }
@@ -53,7 +57,7 @@ impl ProverCfg {
     pub fn to_json(&self) -> serde_json::Value {
         serde_json::json!({"public_lanes": self.public_lanes, "alu_lanes": self.alu_lanes, "horner_k": self.horner_k,
             "min_height": self.min_height, "profile_standard": self.profile_standard,
-            "poseidon": self.npo.poseidon, "recompose": self.npo.recompose, "poseidon_w32": self.poseidon_w32, "poseidon1": self.poseidon1, "poseidon_both": self.poseidon_both})
+            "poseidon": self.npo.poseidon, "recompose": self.npo.recompose, "poseidon_w32": self.poseidon_w32, "poseidon1": self.poseidon1, "poseidon_both": self.poseidon_both, "npo_reversed": self.npo_reversed})
     }
     pub fn from_json(v: &serde_json::Value) -> Self {
         let g = |k: &str, d: usize| v.get(k).and_then(|x| x.as_u64()).map(|x| x as usize).unwrap_or(d);
@@ -69,6 +73,7 @@ impl ProverCfg {
             poseidon_w32: b("poseidon_w32", false),
             poseidon1: b("poseidon1", false),
             poseidon_both: b("poseidon_both", false),
+            npo_reversed: b("npo_reversed", false),
         }
     }
     pub fn swarm(rng: &mut crate::core::prng::Rng, npo: BuilderOpts) -> Self {
@@ -83,6 +88,7 @@ impl ProverCfg {
             poseidon_w32: false,
             poseidon1: false,
             poseidon_both: false,
+            npo_reversed: false,
         }
     }
 }
@@ -215,6 +221,9 @@ pub mod uparams {
 
 macro_rules! uni_npo_prover {
     (yes, $p:ident, $cfg:ident, $d:expr, $p2cfg:expr) => {
+        if $cfg.npo.recompose && $cfg.npo_reversed {
+            $p.register_recompose_table::<$d>(false);
+        }
         if $cfg.npo.poseidon && $cfg.poseidon_both {
             $p.register_poseidon2_table::<$d>($p2cfg);
             $p.register_poseidon2_table::<$d>(p3_circuit::ops::Poseidon2Config::KOALA_BEAR_D4_W32);
@@ -223,7 +232,7 @@ macro_rules! uni_npo_prover {
         } else if $cfg.npo.poseidon {
             $p.register_poseidon2_table::<$d>(if $cfg.poseidon_w32 { p3_circuit::ops::Poseidon2Config::KOALA_BEAR_D4_W32 } else { $p2cfg });
         }
-        if $cfg.npo.recompose {
+        if $cfg.npo.recompose && !$cfg.npo_reversed {
             $p.register_recompose_table::<$d>(false);
         }
     };
@@ -261,6 +270,10 @@ macro_rules! uni_npo_builder {
 }
 macro_rules! uni_npo_keygen {
     (yes, $cfg:ident, $npo_prep:ident, $air_builders:ident, $sc:ty, $d:expr) => {
+        if $cfg.npo.recompose && $cfg.npo_reversed {
+            $npo_prep.push(Box::new(p3_circuit_prover::RecomposePreprocessor::default()));
+            $air_builders.extend(p3_circuit_prover::batch_stark_prover::recompose_air_builders::<$sc, $d>(1, false));
+        }
         if $cfg.npo.poseidon && $cfg.poseidon_both {
             $npo_prep.push(Box::new(p3_circuit_prover::Poseidon2Preprocessor));
             $air_builders.extend(p3_circuit_prover::batch_stark_prover::poseidon2_air_builders_for_configs::<$sc, $d>(vec![p3_circuit::ops::Poseidon2Config::KOALA_BEAR_D4_W16, p3_circuit::ops::Poseidon2Config::KOALA_BEAR_D4_W32]));
@@ -271,7 +284,7 @@ macro_rules! uni_npo_keygen {
             $npo_prep.push(Box::new(p3_circuit_prover::Poseidon2Preprocessor));
             $air_builders.extend(p3_circuit_prover::batch_stark_prover::poseidon2_air_builders::<$sc, $d>());
         }
-        if $cfg.npo.recompose {
+        if $cfg.npo.recompose && !$cfg.npo_reversed {
             $npo_prep.push(Box::new(p3_circuit_prover::RecomposePreprocessor::default()));
             $air_builders.extend(p3_circuit_prover::batch_stark_prover::recompose_air_builders::<$sc, $d>(1, false));
         }
